@@ -2,17 +2,23 @@
 
 package api
 
-// Contracts for property C18 (admin mutations against an abstract store). Comment-only file.
+// Contracts for property C18 (admin mutations against the cluster store). Comment-only file.
 
 /*@
-// abstract store: objs[name] = identity of the stored spec (0 = absent), ver = config version.
+// The store is the key -> text map behind the Cluster interface (kvHas / kvVal, pkg/cluster): an object named n lives
+// under objKeyOf(n) as its YAML text, the config version under the version key as a decimal number.
 // apiLocked: this handler holds the cluster mutex (typestate of Server.Lock / Server.Unlock).
-ghost var objs mmap[string]int
-ghost var objKind mmap[string]string
-ghost var ver int
 ghost var apiLocked bool
 ghost var versionHeader int
-ghost var v0 int
+pred hasObj(n string) := kvHas[cluster.objKeyOf(n)]
+pred objText(n string) := kvVal[cluster.objKeyOf(n)]
+pred ver() := kvHas[cluster.cfgVersionKey()] ? atoi64(kvVal[cluster.cfgVersionKey()]) : 0
+// a stored version reads back as the number that was written
+axiom a-written-version-reads-back: forall n int :: atoi64(decimal(n)) == n
+// what a YAML text says about the object it describes (supervisor.NewSpec parses it: external)
+
+
+
 
 func (s *Server) Lock()
   trusted
@@ -26,46 +32,61 @@ func (s *Server) Unlock()
   modifies apiLocked
   ensures !apiLocked
 
+ghost var gParseFailed bool
+ghost var gSpecFailed bool
+
+// reads the object stored under the key of that name: nil exactly when nothing is stored there
 func (s *Server) _getObject(name string) (spec *supervisor.Spec)
-  trusted
-  requires under-cluster-mutex: apiLocked
-  ensures (spec == nil) <==> objs[name] == 0
-  ensures spec != nil ==> spec.meta != nil && spec.meta.Kind == objKind[name] && spec.meta.Name == name
+  flag allocates
+  requires s != nil && s.cluster != nil && s.super != nil
+  modifies gGetFailed, gSpecFailed
+  panics_only_if the-store-failed-or-holds-an-unreadable-spec: gGetFailed || gSpecFailed
+  ensures nil-exactly-when-nothing-is-stored-under-that-name: (spec == nil) <==> !hasObj(name)
+  ensures the-spec-is-the-stored-text-parsed: spec != nil ==> spec.meta != nil && spec.meta.Kind == yamlKind(objText(name)) && spec.meta.Name == yamlName(objText(name))
+  ghost at entry: gSpecFailed := false
+  ghost at call[1] NewSpec: gSpecFailed := err != nil
 
+// writes the spec's YAML text under the key of the spec's own name - one Put, nothing else
 func (s *Server) _putObject(spec *supervisor.Spec)
-  trusted
   requires under-cluster-mutex: apiLocked
-  requires spec != nil && spec.meta != nil
-  modifies objs, objKind
-  ensures objs == old(store(objs, spec.meta.Name, ref(spec))) && objKind == old(store(objKind, spec.meta.Name, spec.meta.Kind))
+  requires s != nil && s.cluster != nil && spec != nil && spec.meta != nil
+  modifies gPuts, gPutKey, gPutVal, gPutFailed, kvHas, kvVal
+  panics_only_if the-store-refused-the-write: gPutFailed
+  ensures stored-under-its-own-name: kvHas == old(store(kvHas, cluster.objKeyOf(spec.meta.Name), true)) && kvVal == old(store(kvVal, cluster.objKeyOf(spec.meta.Name), spec.yamlConfig))
 
+// removes the key of that name - one Delete, nothing else
 func (s *Server) _deleteObject(name string)
-  trusted
-  requires under-cluster-mutex: apiLocked
-  modifies objs
-  ensures objs == old(store(objs, name, 0))
-
-// the config version lives in the cluster store (ver is its stored value): every mutation reads it back from
-// the store - other members bump it too - and writes the next number under the cluster mutex
-func (s *Server) _getVersion() (v int64)
-  trusted
-  requires under-cluster-mutex: apiLocked
-  ensures reads-the-stored-version: v == ver
-
-func (s *Server) _plusOneVersion() (v int64)
   requires under-cluster-mutex: apiLocked
   requires s != nil && s.cluster != nil
-  modifies ver, v0, gPuts, gPutKey, gPutVal, gPutFailed
-  panics_only_if the-store-refused-the-write: gPutFailed
-  ensures next-version-after-the-stored-one: v == old(ver) + 1 && ver == v
-  ensures written-back-to-the-version-key-once: gPuts == old(gPuts) + 1 && gPutKey == cluster.cfgVersionKey() && gPutVal == decimal(old(ver) + 1)
-  ghost at call[1] Put: ver := (err == nil ? v0 + 1 : ver)
-  ghost at entry: v0 := ver
+  modifies gDelFailed, kvHas
+  panics_only_if the-store-refused-the-delete: gDelFailed
+  ensures removed: kvHas == old(store(kvHas, cluster.objKeyOf(name), false))
+
+// the config version lives in the store: every mutation reads it back - other members bump it too - and writes
+// the next number under the cluster mutex
+func (s *Server) _getVersion() (v int64)
+  flag allocates
+  requires under-cluster-mutex: apiLocked
+  requires s != nil && s.cluster != nil
+  modifies gGetFailed, gParseFailed
+  panics_only_if the-store-failed-or-holds-no-number: gGetFailed || gParseFailed
+  ensures reads-the-stored-version: v == ver()
+  ghost at entry: gParseFailed := false
+  ghost at call[1] ParseInt: gParseFailed := err != nil
+
+func (s *Server) _plusOneVersion() (v int64)
+  flag allocates
+  requires under-cluster-mutex: apiLocked
+  requires s != nil && s.cluster != nil
+  modifies gGetFailed, gParseFailed, gPuts, gPutKey, gPutVal, gPutFailed, kvHas, kvVal
+  panics_only_if the-store-failed: gGetFailed || gParseFailed || gPutFailed
+  ensures next-version-after-the-stored-one: v == old(ver()) + 1 && ver() == v
+  ensures written-back-to-the-version-key-once: gPuts == old(gPuts) + 1 && kvHas == old(store(kvHas, cluster.cfgVersionKey(), true)) && kvVal == old(store(kvVal, cluster.cfgVersionKey(), decimal(ver() + 1)))
 
 func (s *Server) readObjectSpec(w http.ResponseWriter, r *http.Request) (spec *supervisor.Spec, err error)
   trusted
   flag allocates
-  ensures err == nil ==> spec != nil && spec.meta != nil && ref(spec) != 0
+  ensures err == nil ==> spec != nil && spec.meta != nil && ref(spec) != 0 && yamlName(spec.yamlConfig) == spec.meta.Name && yamlKind(spec.yamlConfig) == spec.meta.Kind
 
 func HandleAPIError(w http.ResponseWriter, r *http.Request, code int, err error)
   trusted
@@ -73,44 +94,68 @@ func HandleAPIError(w http.ResponseWriter, r *http.Request, code int, err error)
   ensures wroteStatus == code
 
 func (s *Server) upgradeConfigVersion(w http.ResponseWriter, r *http.Request)
+  flag allocates
   requires apiLocked && w != nil && s != nil && s.cluster != nil
-  modifies ver, v0, gPuts, gPutKey, gPutVal, gPutFailed, versionHeader, allof("map<string,[]string>#dom"), allof("map<string,[]string>#card"), allof("map<string,[]string>#val#arr"), allof("map<string,[]string>#val#len"), allof("map<string,[]string>#val#cap"), allof("elem<string>")
-  ensures ver == old(ver) + 1 && versionHeader == ver
+  modifies gGetFailed, gParseFailed, gPuts, gPutKey, gPutVal, gPutFailed, kvHas, kvVal, versionHeader, allof("map<string,[]string>#dom"), allof("map<string,[]string>#card"), allof("map<string,[]string>#val#arr"), allof("map<string,[]string>#val#len"), allof("map<string,[]string>#val#cap"), allof("elem<string>")
+  panics_only_if the-store-failed: gGetFailed || gParseFailed || gPutFailed
+  ensures ver() == old(ver()) + 1 && versionHeader == ver()
+  ensures only-the-version-key-is-written: kvHas == old(store(kvHas, cluster.cfgVersionKey(), true)) && kvVal == old(store(kvVal, cluster.cfgVersionKey(), decimal(ver() + 1)))
   ghost at call[1] _plusOneVersion: versionHeader := v
 
 ghost var gName string
 ghost var gSpec int
 ghost var gKind string
 ghost var gReadFailed bool
+ghost var gCheckedLocked bool  // the existence check of a mutation was made while holding the cluster mutex
+pred storeFailed() := gGetFailed || gSpecFailed || gParseFailed || gPutFailed || gDelFailed
 
 func (s *Server) createObject(w http.ResponseWriter, r *http.Request)
-  requires s != nil && s.cluster != nil && w != nil && r != nil && r.URL != nil && !apiLocked
-  modifies objs, objKind, ver, v0, gPuts, gPutKey, gPutVal, gPutFailed, versionHeader, apiLocked, wroteStatus, gName, gSpec, gKind, gReadFailed, allof("map<string,[]string>#dom"), allof("map<string,[]string>#card"), allof("map<string,[]string>#val#arr"), allof("map<string,[]string>#val#len"), allof("map<string,[]string>#val#cap"), allof("elem<string>")
+  flag allocates
+  requires s != nil && s.cluster != nil && s.super != nil && w != nil && r != nil && r.URL != nil && !apiLocked
+  modifies gCheckedLocked, kvHas, kvVal, gGetFailed, gSpecFailed, gParseFailed, gPuts, gPutKey, gPutVal, gPutFailed, versionHeader, apiLocked, wroteStatus, gName, gSpec, gKind, gReadFailed, allof("map<string,[]string>#dom"), allof("map<string,[]string>#card"), allof("map<string,[]string>#val#arr"), allof("map<string,[]string>#val#len"), allof("map<string,[]string>#val#cap"), allof("elem<string>")
+  panics_only_if the-store-failed: storeFailed()
+  ensures the-existence-check-runs-under-the-cluster-mutex: gCheckedLocked
   ensures mutex-released: !apiLocked
-  ensures bad-body-changes-nothing: gReadFailed ==> objs == old(objs) && ver == old(ver) && wroteStatus == 400
-  ensures existing-name-is-409-and-changes-nothing: let g = gName in (let sp = gSpec in (!gReadFailed && old(objs[g]) != 0 ==> wroteStatus == 409 && objs == old(objs) && ver == old(ver)))
-  ensures new-name-is-stored-with-next-version: let g = gName in (let sp = gSpec in (!gReadFailed && old(objs[g]) == 0 ==> objs == old(store(objs, g, sp)) && ver == old(ver) + 1 && versionHeader == ver))
+  ensures bad-body-changes-nothing: gReadFailed ==> kvHas == old(kvHas) && kvVal == old(kvVal) && wroteStatus == 400
+  ensures existing-name-is-409-and-changes-nothing: let g = gName in (!gReadFailed && old(hasObj(g)) ==> wroteStatus == 409 && kvHas == old(kvHas) && kvVal == old(kvVal))
+  ensures new-name-is-stored-with-next-version: let g = gName in (let sp = ptr(gSpec, "*supervisor.Spec") in (!gReadFailed && !old(hasObj(g)) ==> hasObj(g) && objText(g) == sp.yamlConfig && ver() == old(ver()) + 1 && versionHeader == ver()))
+  ensures nothing-else-is-written: let g = gName in (forall k string :: k != cluster.objKeyOf(g) && k != cluster.cfgVersionKey() ==> kvHas[k] == old(kvHas[k]) && kvVal[k] == old(kvVal[k]))
+  ghost at entry: gCheckedLocked := true
+  ghost at call _getObject: gCheckedLocked := gCheckedLocked && apiLocked
   ghost at call[1] readObjectSpec: gReadFailed := err != nil
   ghost at call[1] readObjectSpec: gSpec := ref(spec)
   ghost at call[1] Name: gName := n
 
 func (s *Server) updateObject(w http.ResponseWriter, r *http.Request)
-  requires s != nil && s.cluster != nil && w != nil && r != nil && !apiLocked
-  modifies objs, objKind, ver, v0, gPuts, gPutKey, gPutVal, gPutFailed, versionHeader, apiLocked, wroteStatus, gName, gSpec, gKind, gReadFailed, allof("map<string,[]string>#dom"), allof("map<string,[]string>#card"), allof("map<string,[]string>#val#arr"), allof("map<string,[]string>#val#len"), allof("map<string,[]string>#val#cap"), allof("elem<string>")
+  flag allocates
+  requires s != nil && s.cluster != nil && s.super != nil && w != nil && r != nil && !apiLocked
+  modifies gCheckedLocked, kvHas, kvVal, gGetFailed, gSpecFailed, gParseFailed, gPuts, gPutKey, gPutVal, gPutFailed, versionHeader, apiLocked, wroteStatus, gName, gSpec, gKind, gReadFailed, allof("map<string,[]string>#dom"), allof("map<string,[]string>#card"), allof("map<string,[]string>#val#arr"), allof("map<string,[]string>#val#len"), allof("map<string,[]string>#val#cap"), allof("elem<string>")
+  panics_only_if the-store-failed: storeFailed()
+  ensures the-existence-check-runs-under-the-cluster-mutex: gCheckedLocked
   ensures mutex-released: !apiLocked
-  ensures bad-body-changes-nothing: gReadFailed ==> objs == old(objs) && ver == old(ver) && wroteStatus == 400
-  ensures missing-name-is-404-and-changes-nothing: let g = gName in (let sp = gSpec in (!gReadFailed && old(objs[g]) == 0 ==> wroteStatus == 404 && objs == old(objs) && ver == old(ver)))
-  ensures other-kind-is-400-and-changes-nothing: let g = gName in (let sp = gSpec in (!gReadFailed && old(objs[g]) != 0 && old(objKind[g]) != gKind ==> wroteStatus == 400 && objs == old(objs) && ver == old(ver)))
-  ensures same-kind-is-replaced-with-next-version: let g = gName in (let sp = gSpec in (!gReadFailed && old(objs[g]) != 0 && old(objKind[g]) == gKind ==> objs == old(store(objs, g, sp)) && ver == old(ver) + 1 && versionHeader == ver))
+  ensures bad-body-changes-nothing: gReadFailed ==> kvHas == old(kvHas) && kvVal == old(kvVal) && wroteStatus == 400
+  ensures missing-name-is-404-and-changes-nothing: let g = gName in (!gReadFailed && !old(hasObj(g)) ==> wroteStatus == 404 && kvHas == old(kvHas) && kvVal == old(kvVal))
+  ensures other-kind-is-400-and-changes-nothing: let g = gName in (!gReadFailed && old(hasObj(g)) && old(yamlKind(objText(g))) != gKind ==> wroteStatus == 400 && kvHas == old(kvHas) && kvVal == old(kvVal))
+  ensures same-kind-is-replaced-with-next-version: let g = gName in (let sp = ptr(gSpec, "*supervisor.Spec") in (!gReadFailed && old(hasObj(g)) && old(yamlKind(objText(g))) == gKind ==> hasObj(g) && objText(g) == sp.yamlConfig && ver() == old(ver()) + 1 && versionHeader == ver()))
+  ensures nothing-else-is-written: let g = gName in (forall k string :: k != cluster.objKeyOf(g) && k != cluster.cfgVersionKey() ==> kvHas[k] == old(kvHas[k]) && kvVal[k] == old(kvVal[k]))
+  ghost at entry: gCheckedLocked := true
+  ghost at call _getObject: gCheckedLocked := gCheckedLocked && apiLocked
   ghost at call[1] readObjectSpec: gReadFailed := err != nil
   ghost at call[1] readObjectSpec: gSpec := ref(spec)
   ghost at call[1] readObjectSpec: gKind := (spec == nil ? "" : spec.meta.Kind)
   ghost at call[1] Name: gName := n
+
 func (s *Server) deleteObject(w http.ResponseWriter, r *http.Request)
-  requires s != nil && s.cluster != nil && w != nil && r != nil && !apiLocked
-  modifies objs, objKind, ver, v0, gPuts, gPutKey, gPutVal, gPutFailed, versionHeader, apiLocked, wroteStatus, gName, gSpec, gKind, gReadFailed, allof("map<string,[]string>#dom"), allof("map<string,[]string>#card"), allof("map<string,[]string>#val#arr"), allof("map<string,[]string>#val#len"), allof("map<string,[]string>#val#cap"), allof("elem<string>")
+  flag allocates
+  requires s != nil && s.cluster != nil && s.super != nil && w != nil && r != nil && !apiLocked
+  modifies gCheckedLocked, kvHas, kvVal, gGetFailed, gSpecFailed, gParseFailed, gDelFailed, gPuts, gPutKey, gPutVal, gPutFailed, versionHeader, apiLocked, wroteStatus, gName, gSpec, gKind, gReadFailed, allof("map<string,[]string>#dom"), allof("map<string,[]string>#card"), allof("map<string,[]string>#val#arr"), allof("map<string,[]string>#val#len"), allof("map<string,[]string>#val#cap"), allof("elem<string>")
+  panics_only_if the-store-failed: storeFailed()
+  ensures the-existence-check-runs-under-the-cluster-mutex: gCheckedLocked
   ensures mutex-released: !apiLocked
-  ensures missing-name-is-404-and-changes-nothing: let g = gName in (old(objs[g]) == 0 ==> wroteStatus == 404 && objs == old(objs) && ver == old(ver))
-  ensures existing-name-is-removed-with-next-version: let g = gName in (old(objs[g]) != 0 ==> objs == old(store(objs, g, 0)) && ver == old(ver) + 1 && versionHeader == ver)
+  ensures missing-name-is-404-and-changes-nothing: let g = gName in (!old(hasObj(g)) ==> wroteStatus == 404 && kvHas == old(kvHas) && kvVal == old(kvVal))
+  ensures existing-name-is-removed-with-next-version: let g = gName in (old(hasObj(g)) ==> !hasObj(g) && ver() == old(ver()) + 1 && versionHeader == ver())
+  ensures nothing-else-is-written: let g = gName in (forall k string :: k != cluster.objKeyOf(g) && k != cluster.cfgVersionKey() ==> kvHas[k] == old(kvHas[k]) && kvVal[k] == old(kvVal[k]))
+  ghost at entry: gCheckedLocked := true
+  ghost at call _getObject: gCheckedLocked := gCheckedLocked && apiLocked
   ghost at call[1] _getObject: gName := name
 @*/
